@@ -156,6 +156,17 @@ fn str_contents(n: usize) -> Vec<String> {
     v.push(format!(" {mid}"));
     v.push(format!("{mid}\n"));
     v.push("\0".repeat(n));
+    // boundary scalars of every UTF-8 length class, and scalars a normalising or trimming
+    // decoder would treat specially (BOM, NBSP, NEL, line separator, combining mark, joiner,
+    // replacement character, non-characters), at the head and at the tail
+    for c in ['\u{feff}', '\u{80}', '\u{85}', '\u{a0}', '\u{301}', '\u{7ff}', '\u{800}', '\u{200d}', '\u{2028}', '\u{d7ff}', '\u{e000}', '\u{fffd}', '\u{ffff}', '\u{10000}', '\u{10ffff}'] {
+        let l = c.len_utf8();
+        if n >= l {
+            let fill = ascii(n - l);
+            v.push(format!("{c}{fill}"));
+            v.push(format!("{fill}{c}"));
+        }
+    }
     v.sort();
     v.dedup();
     v
